@@ -10,7 +10,7 @@ class ExprGen:
         self.rigid = rigid
         self.malformed = malformed
         self.ops = ops or ["then", "tensor", "dagger", "slice", "slicerev", "getitem", "interchange",
-                           "normal_form", "swap", "perm"] + (["cups", "caps"] if rigid else [])
+                           "normal_form", "swap", "perm"] + (["cups", "caps", "transpose"] if rigid else [])
 
     # every generator returns (expr, dom, cod, nboxes) with dom/cod None when not tracked
     def leaf(self, dom=None):
@@ -104,6 +104,14 @@ class ExprGen:
             for i in range(n):
                 cod[p[i]] = dom[i]
             return ("perm", p, dom), dom, cod, n
+        if op == "transpose":
+            a, ad, ac, an = self.expr(depth - 1)
+            left = r.random() < 0.5
+            if ad is None or ac is None:
+                return ("transpose", a, left), None, None, an
+            if left:
+                return ("transpose", a, left), ty_l(ac), ty_l(ad), an + len(ad) + len(ac)
+            return ("transpose", a, left), ty_r(ac), ty_r(ad), an + len(ad) + len(ac)
         if op in ("cups", "caps"):
             l = self.g.ty(0, 3)
             rr = ty_r(l) if r.random() < 0.5 else ty_l(l)
